@@ -12,8 +12,28 @@ use crate::rng::Rng;
 use crate::runner::{Scenario, Spec};
 use crate::vmh;
 use serde_json::{json, Value};
+use std::sync::{Arc, Mutex};
+use steel::rvals::Custom;
+use steel::steel_vm::register_fn::RegisterFn;
 
 pub struct C19;
+
+/// A host value that garbage carries around: every live copy holds a clone of
+/// one master `Arc`, so the number of copies that still exist anywhere in the
+/// runtime is `strong_count - 1`, whatever the slot bookkeeping says.
+#[derive(Clone)]
+struct Tracker(#[allow(dead_code)] Arc<()>);
+impl Custom for Tracker {}
+
+static MASTER: Mutex<Option<Arc<()>>> = Mutex::new(None);
+
+fn make_tracker() -> Tracker {
+    Tracker(MASTER.lock().unwrap().as_ref().expect("master").clone())
+}
+
+fn trackers_alive() -> usize {
+    MASTER.lock().unwrap().as_ref().map(|m| Arc::strong_count(m) - 1).unwrap_or(0)
+}
 
 const PRELUDE: &str = r#"
 (struct node (next val) #:mutable)
@@ -54,17 +74,33 @@ const PRELUDE: &str = r#"
     (when (< i n)
       (with-handler (lambda (e) (box 1)) (let ((b (box i))) (error "x")))
       (lp (+ i 1)))))
+(define (g-t-acyclic n) (let lp ((i 0)) (when (< i n) (box (list (make-tracker) (box (make-tracker)))) (lp (+ i 1)))))
+(define (make-t-ring k)
+  (let ((first (box 0)))
+    (let lp ((i 1) (prev first))
+      (if (= i k)
+          (begin (set-box! prev (cons (make-tracker) first)) first)
+          (let ((b (box 0))) (set-box! prev (cons (make-tracker) b)) (lp (+ i 1) b))))))
+(define (g-t-ring n k) (let lp ((i 0)) (when (< i n) (make-t-ring k) (lp (+ i 1)))))
+(define (make-t-closure)
+  (let ((f #f) (payload (box (make-tracker))))
+    (set! f (lambda () (unbox payload) f))
+    f))
+(define (g-t-closure n) (let lp ((i 0)) (when (< i n) (make-t-closure) (lp (+ i 1)))))
 (define (keep-add! x) (set! keep (cons (box x) keep)))
 (define (keep-drop!) (when (not (null? keep)) (set! keep (cdr keep))))
 (define (keep-sum) (apply + (map unbox keep)))
 "#;
 
-const KINDS: &[&str] = &["acyclic", "self", "ring", "mixed", "closure", "continuation", "handler", "shadowed"];
+const KINDS: &[&str] = &[
+    "acyclic", "self", "ring", "mixed", "closure", "continuation", "handler", "shadowed", "t-acyclic", "t-ring", "t-closure", "t-rooted", "t-pair",
+];
 
 fn gen_workload(rng: &mut Rng, thorough: bool) -> Value {
     let jit = rng.chance(1, 2);
     let (gn, gd) = *rng.pick(&[(0u64, 1u64), (0, 1), (1, 64), (1, 8)]);
     let blocks = rng.range(2, if thorough { 30 } else { 7 });
+    let threshold = *rng.pick(&[1u64, 5, 100]);
     let mut kinds: Vec<&str> = KINDS.to_vec();
     rng.shuffle(&mut kinds);
     kinds.truncate(rng.range(1, 4) as usize);
@@ -79,6 +115,8 @@ fn gen_workload(rng: &mut Rng, thorough: bool) -> Value {
             let k = *rng.pick(&kinds);
             let n = if gn == 1 && gd == 8 { rng.range(40, 80) } else { rng.range(60, if thorough { 3000 } else { 160 }) };
             let ring = rng.range(2, 9);
+            // every redefinition beyond the recycling threshold costs a recycling pass
+            let n = if k == "t-pair" || k == "shadowed" { n.min(3 * threshold + 20) } else { n };
             ops.push(json!([k, n, ring]));
         }
         // live-set changes
@@ -92,7 +130,7 @@ fn gen_workload(rng: &mut Rng, thorough: bool) -> Value {
         }
         bl.push(Value::Array(ops));
     }
-    json!({"jit": jit, "gc": [gn, gd], "chunk": *rng.pick(if thorough { &[256u64, 1024, 4096, 25600][..] } else { &[256u64, 1024, 4096][..] }), "threshold": *rng.pick(&[1u64, 5, 100]), "blocks": bl})
+    json!({"jit": jit, "gc": [gn, gd], "chunk": *rng.pick(if thorough { &[256u64, 1024, 4096, 25600][..] } else { &[256u64, 1024, 4096][..] }), "threshold": threshold, "blocks": bl})
 }
 
 fn render(op: &Value, uid: &mut u64) -> String {
@@ -107,6 +145,19 @@ fn render(op: &Value, uid: &mut u64) -> String {
         "closure" => format!("(g-closure {})", n),
         "continuation" => format!("(g-continuation {})", n.min(300)),
         "handler" => format!("(g-handler {})", n.min(300)),
+        "t-acyclic" => format!("(g-t-acyclic {})", n.min(300)),
+        "t-ring" => format!("(g-t-ring {} {})", n.min(200), r),
+        "t-closure" => format!("(g-t-closure {})", n.min(300)),
+        "t-pair" => {
+            // a shadowed global that is referenced only by the code of another
+            // shadowed global; each pair is redefined in its own evaluation
+            let mut s = String::new();
+            for _ in 0..n.min(320) {
+                s.push_str("(define t-payload (let ((b (box 0))) (set-box! b (cons (make-tracker) b)) b))\n(define (t-peek) (car (unbox t-payload)))\n;;;;\n");
+            }
+            s.push_str("(define t-payload 0)\n(define (t-peek) 0)");
+            s
+        }
         "shadowed" => {
             // garbage that is only referenced from shadowed globals
             let mut s = String::new();
@@ -119,7 +170,7 @@ fn render(op: &Value, uid: &mut u64) -> String {
         }
         "keep-add" => format!("(keep-add! {})", n),
         "keep-drop" => "(keep-drop!)".to_string(),
-        _ => "(void)".to_string(),
+        _ => "void".to_string(),
     }
 }
 
@@ -134,7 +185,7 @@ impl Scenario for C19 {
         vmh::build_prototypes(true, true);
     }
     fn default_runs(&self, thorough: bool) -> u64 {
-        if thorough { 20_000 } else { 480 }
+        if thorough { 20_000 } else { 320 }
     }
     fn timeout_ms(&self) -> u64 {
         120_000
@@ -168,6 +219,8 @@ impl Scenario for C19 {
         // a reachable slot that was freed is C04's business; here it is only counted
         vmh::set_stale_is_violation(false);
         vmh::set_context("prelude");
+        *MASTER.lock().unwrap() = Some(Arc::new(()));
+        engine.register_fn("make-tracker", make_tracker);
         if let Err(e) = vmh::eval(&mut engine, PRELUDE) {
             report::harness_error(format!("prelude failed: {}", e));
         }
@@ -184,7 +237,7 @@ impl Scenario for C19 {
         for b in blocks.iter() {
             for op in b.as_array().into_iter().flatten() {
                 let k = op[0].as_str().unwrap_or("").to_string();
-                if !seen.contains(&k) && !k.starts_with("keep") && k != "weak" {
+                if !seen.contains(&k) && !k.starts_with("keep") && k != "weak" && k != "t-rooted" {
                     let small = json!([k, 3, 3]);
                     let src = render(&small, &mut uid);
                     for piece in src.split("\n;;;;\n") {
@@ -207,11 +260,39 @@ impl Scenario for C19 {
         let (base_val, base_vec, _) = collect(&mut engine);
         let mut model_keep: Vec<i64> = Vec::new();
         let mut max_slots = 0usize;
+        // values the host keeps rooted: created in one block, held across that
+        // block's collections, released at the start of the next block
+        let mut rooted: Vec<steel::RootedSteelVal> = Vec::new();
+        let mut tracker_kinds: Vec<String> = Vec::new();
+        let mut pair_redefinitions = 0u64;
         for (bi, b) in blocks.iter().enumerate() {
             vmh::set_context("block");
+            rooted.clear();
+            let mut rooted_boxes = 0usize;
             let mut weak_checks: Vec<String> = Vec::new();
             for op in b.as_array().into_iter().flatten() {
                 let k = op[0].as_str().unwrap_or("");
+                if k.starts_with("t-") && !tracker_kinds.iter().any(|x| x == k) {
+                    tracker_kinds.push(k.to_string());
+                }
+                if k == "t-pair" {
+                    pair_redefinitions += op[1].as_u64().unwrap_or(0).min(320);
+                }
+                if k == "t-rooted" {
+                    vmh::set_context(&format!("{}/t-rooted", tier));
+                    for _ in 0..op[1].as_u64().unwrap_or(1).min(20) {
+                        match engine.run(format!("(make-t-ring {})", op[2].as_u64().unwrap_or(3))) {
+                            Ok(mut vs) => {
+                                let v = vs.pop().unwrap();
+                                rooted.push(v.as_rooted());
+                                rooted_boxes += op[2].as_u64().unwrap_or(3) as usize;
+                                report::probe("host-rooted-ring");
+                            }
+                            Err(e) => report::violation("C19/unexpected-error", format!("block {}: host ring failed: {}", bi, e)),
+                        }
+                    }
+                    continue;
+                }
                 if k == "weak" {
                     uid += 1;
                     let name = format!("wb{}", uid);
@@ -264,8 +345,9 @@ impl Scenario for C19 {
             // globals waits for the recycling threshold to be passed.
             let threshold = w["threshold"].as_u64().unwrap_or(100) as usize;
             let uses_shadowed = blocks.iter().any(|b| b.as_array().into_iter().flatten().any(|op| op[0] == "shadowed"));
-            let slack = if uses_shadowed { 24 + 3 * (16 * threshold + 48) } else { 24 };
-            let expect_val = base_val + model_keep.len();
+            let uses_pair = blocks.iter().any(|b| b.as_array().into_iter().flatten().any(|op| op[0] == "t-pair"));
+            let slack = if uses_shadowed { 24 + 3 * (16 * threshold + 48) } else if uses_pair { 24 + 2 * threshold } else { 24 };
+            let expect_val = base_val + model_keep.len() + rooted_boxes;
             if lv > expect_val + slack || lvec > base_vec + slack {
                 report::violation(
                     &vio("garbage-not-reclaimed"),
@@ -291,6 +373,35 @@ impl Scenario for C19 {
                     }
                     Err(e) => report::violation(&vio("weak-box-error"), format!("block {}: {} failed: {}", bi, name, e)),
                 }
+            }
+        }
+        // What the slot counts cannot see: whether the contents of unreachable
+        // storage are ever let go. Nothing that carries a tracker is reachable
+        // now; eleven full collections in a row include a compaction of the
+        // value list, after which no unreachable slot may still hold its contents.
+        if !tracker_kinds.is_empty() {
+            rooted.clear();
+            vmh::set_context(&if jit_struct_used { "jit/mixed".to_string() } else { format!("{}/final", tier) });
+            let before = trackers_alive();
+            for _ in 0..12 {
+                let _ = vmh::eval(&mut engine, "(#%gc-collect)");
+            }
+            let alive = trackers_alive();
+            report::set_extra("trackers", json!({"before_final_collections": before, "after": alive, "kinds": tracker_kinds, "pair_redefinitions": pair_redefinitions}));
+            // stale temporaries of the last evaluation may hold a few; shadowed
+            // globals below the recycling threshold are not examined yet
+            let threshold = w["threshold"].as_u64().unwrap_or(100) as usize;
+            let slack = if tracker_kinds.iter().any(|k| k == "t-pair") { 24 + 2 * threshold } else { 24 };
+            if alive > slack {
+                let class = if tracker_kinds.len() == 1 { tracker_kinds[0].clone() } else { "several".to_string() };
+                let name = format!("contents-never-released/{}", class);
+                report::violation(
+                    &(if jit_struct_used { format!("C19/jit/mixed/{}", name) } else { format!("C19/{}", name) }),
+                    format!(
+                        "after the last block nothing that carries a tracker is reachable, yet after 12 consecutive full collections {} tracker(s) still exist (slack {}); kinds {:?}, {} pair redefinitions, recycling threshold {}",
+                        alive, slack, tracker_kinds, pair_redefinitions, threshold
+                    ),
+                );
             }
         }
         report::set_extra("max_slots", json!(max_slots));
@@ -322,7 +433,7 @@ impl Scenario for C19 {
     }
 
     fn rule(&self) -> String {
-        "each evaluation = one forked run of 3-30 blocks; a block creates 1-3 batches of garbage (acyclic, self-cycles through boxes and vectors, rings of 2-9 boxes, rings through box/vector/struct field, closures capturing themselves, storage referenced only from a dead continuation, from a finished handler, from shadowed globals) of 5-3000 items each, changes the live set, creates weak boxes, then requests a full collection; forced collections at rate {0,1/64,1/8}, heap growth chunk and recycling threshold randomised, JIT on/off; after every block: live value/vector slots == warm-up baseline + model live set (exact), accounting == mark bits, live data reads back, weak boxes of dropped targets are cleared and of live targets are not; non-trivial = every run".into()
+        "each evaluation = one forked run of 3-30 blocks; a block creates 1-3 batches of garbage (acyclic, self-cycles through boxes and vectors, rings of 2-9 boxes, rings through box/vector/struct field, closures capturing themselves, storage referenced only from a dead continuation, from a finished handler, from shadowed globals; and kinds that carry host trackers: acyclic, rings, self-capturing closures, rings that the host keeps rooted across the block's collections and then releases, pairs of shadowed globals where one is referenced only by the code of the other) of 5-3000 items each, changes the live set, creates weak boxes, then requests a full collection; forced collections at rate {0,1/64,1/8}, heap growth chunk and recycling threshold randomised, JIT on/off; after every block: live value/vector slots <= warm-up baseline + model live set + a fixed residue, accounting == mark bits, live data reads back, weak boxes of dropped targets are cleared; at the end 12 consecutive full collections (they include a compaction) after which the number of host trackers still in existence must not exceed the residue; non-trivial = every run".into()
     }
     fn assumptions(&self) -> Vec<String> {
         vec![
